@@ -1,6 +1,7 @@
 package eng
 
 import (
+	"bytes"
 	"fmt"
 	"io"
 	"strings"
@@ -41,9 +42,18 @@ type c11Rule struct {
 }
 
 type c11File struct {
-	Name string        `json:"name"`
-	Data core.Bytes    `json:"data"`
-	D    core.Delivery `json:"delivery"`
+	Name string     `json:"name"`
+	Data core.Bytes `json:"data"`
+	// Repeat > 1: the content is Data repeated that many times (long inputs)
+	Repeat int           `json:"repeat,omitempty"`
+	D      core.Delivery `json:"delivery"`
+}
+
+func (f *c11File) bytes() []byte {
+	if f.Repeat > 1 {
+		return bytes.Repeat(f.Data, f.Repeat)
+	}
+	return f.Data
 }
 
 type c11Scn struct {
@@ -181,7 +191,9 @@ func c11GenOps(r *core.Rand, ctx string, depth int, allowCmd bool) []c11Op {
 			op.Sub = c11GenOps(r, sub, depth+1, allowCmd)
 		case "argv-set":
 			op.K = r.Range(1, 4)
-			op.Name = core.Pick(r, []string{"f1", "f2", "", "v=5", "-"})
+			// ("-" is not assigned at run time: a second "-" operand would put a second buffered
+			// scanner on standard input, and which one gets which bytes no property specifies)
+			op.Name = core.Pick(r, []string{"f1", "f2", "", "v=5", "f3"})
 		case "argv-del":
 			op.K = r.Range(1, 4)
 		case "argc-set":
@@ -208,7 +220,43 @@ func c11GenPat(r *core.Rand) c11Pat {
 	return c11Pat{}
 }
 
+// c11GenLong draws a long-input scenario: thousands of records abandoned or consumed from
+// inside functions and loops (state that only builds up over a long history).
+func c11GenLong(r *core.Rand) *c11Scn {
+	sc := &c11Scn{}
+	n := r.Range(1050, 2600)
+	line := core.Pick(r, []string{"a 1\n", "lit x\n", "7\n"})
+	sc.Files = []c11File{{Name: "f1", Data: core.Bytes(line), Repeat: n}, {Name: "f2", Data: core.Bytes("bb\nlit\n")},
+		{Name: "f3"}, {Name: "g1", Data: core.Bytes("g\n")}, {Name: "g2"}}
+	sc.Args = []string{"f1"}
+	if r.Bool() {
+		sc.Args = append(sc.Args, "f2")
+	}
+	leave := core.Pick(r, []string{"next", "next", "nextfile", "getline-var", "getline"})
+	inner := []c11Op{{Kind: leave}}
+	if r.Bool() {
+		inner = []c11Op{{Kind: "assign", K: r.Range(0, 9)}, {Kind: leave}}
+	}
+	body := []c11Op{{Kind: "call", K: 1, Sub: inner}}
+	switch r.Intn(4) {
+	case 0:
+		body = []c11Op{{Kind: "call", K: 1, Sub: []c11Op{{Kind: "call", K: 1, Sub: inner}}}}
+	case 1:
+		body = []c11Op{{Kind: "loop", K: 2, Sub: []c11Op{{Kind: "call", K: 1, Sub: inner}}}}
+	}
+	sc.Rules = []c11Rule{{Body: body}}
+	if r.Bool() {
+		sc.Rules = append(sc.Rules, c11Rule{Pat: c11Pat{Kind: "nr", K: r.Range(900, n)}, Body: []c11Op{{Kind: "trace", K: 1}}})
+	}
+	sc.HasEnd = true
+	sc.End = []c11Op{{Kind: "trace", K: 2}, {Kind: "call", K: 1, Sub: []c11Op{{Kind: "trace", K: 3}}}}
+	return sc
+}
+
 func (c11Engine) Gen(r *core.Rand, tier string, i int) any {
+	if r.Chance(1, 40) {
+		return c11GenLong(r)
+	}
 	sc := &c11Scn{}
 	allowCmd := r.Chance(1, 25)
 	if r.Chance(2, 3) {
@@ -688,8 +736,8 @@ func (m *c11Model) match(p c11Pat) bool {
 // c11RunModel executes the scenario on the model.
 func c11RunModel(sc *c11Scn) *c11Model {
 	m := &c11Model{sc: sc, files: map[string][]byte{}, argv: map[int]string{}, streams: map[string]*c11Stream{}}
-	for _, f := range sc.Files {
-		m.files[f.Name] = f.Data
+	for i := range sc.Files {
+		m.files[sc.Files[i].Name] = sc.Files[i].bytes()
 	}
 	m.stdin = &c11Stream{lines: m.recs(sc.Stdin)}
 	for i, a := range sc.Args {
@@ -782,6 +830,9 @@ func (e c11Engine) Run(scAny any, keep bool) (out core.Outcome) {
 	src := c11Source(sc)
 	prog, perr := parser.ParseProgram([]byte(src), &parser.ParserConfig{Funcs: c11funcs})
 	if perr != nil {
+		if core.Shrinking {
+			return out // a shrink candidate moved next/nextfile out of a function: not a program of the family
+		}
 		// the template only produces text the parser is known to accept; anything else is a harness bug
 		core.Fatal("C11: generated program does not parse: %v\n%s", perr, src)
 	}
@@ -793,8 +844,9 @@ func (e c11Engine) Run(scAny any, keep bool) (out core.Outcome) {
 	}
 	defer fs.Remove()
 	deliveries := map[string]core.Delivery{}
-	for _, f := range sc.Files {
-		_ = fs.Put(f.Name, f.Data)
+	for i := range sc.Files {
+		f := &sc.Files[i]
+		_ = fs.Put(f.Name, f.bytes())
 		deliveries[f.Name] = f.D
 	}
 	stats := &core.ReaderStats{}
@@ -905,6 +957,10 @@ func (e c11Engine) Run(scAny any, keep bool) (out core.Outcome) {
 func c11FilesString(sc *c11Scn) string {
 	var parts []string
 	for _, f := range sc.Files {
+		if f.Repeat > 1 {
+			parts = append(parts, fmt.Sprintf("%s=%q x%d", f.Name, string(f.Data), f.Repeat))
+			continue
+		}
 		parts = append(parts, fmt.Sprintf("%s=%q", f.Name, string(f.Data)))
 	}
 	return strings.Join(parts, " ")
@@ -991,6 +1047,16 @@ func (c11Engine) Shrink(scAny any) []any {
 		out = append(out, c)
 	}
 	for i, f := range sc.Files {
+		if f.Repeat > 1 {
+			for _, n := range []int{f.Repeat / 2, f.Repeat - 1} {
+				if n >= 1 {
+					c := clone()
+					c.Files[i].Repeat = n
+					out = append(out, c)
+				}
+			}
+			continue
+		}
 		if len(f.D.Chunks) > 0 || f.D.EOFWithData {
 			c := clone()
 			c.Files[i].D = core.Delivery{}
